@@ -1,6 +1,7 @@
 package session
 
 import (
+	"math"
 	"strconv"
 
 	"github.com/b2broker/simplefix-go/storages/memory"
@@ -113,7 +114,8 @@ func otherSessionTraffic(st *memory.Storage) {
 }
 
 // unacceptableLogon constrains / damages a symbolic Logon so that it must not be accepted.
-// variant 0: encryption method not allowed; 1: heartbeat above the limit; 2: below; 3: application refuses
+// variant 0: encryption method not allowed; 1: heartbeat above the limit; 2: below; 3: application refuses;
+// 4: no upper limit configured and an interval that overflows time.Duration (timers cannot be created)
 func (f *fx) refuseVariant(variant int, b []byte) []byte {
 	method, _ := fieldOf(b, "98")
 	hb, _ := fieldOf(b, "108")
@@ -126,6 +128,8 @@ func (f *fx) refuseVariant(variant int, b []byte) []byte {
 	case 2:
 		zz.Assume(method[0] == '0')
 		zz.Assume(atoi(hb) < 20)
+	case 4:
+		zz.Assume(method[0] == '0') // acceptable in every respect except the interval's size
 	default:
 		f.approve = func(*LogonSettings) error { return errRefused }
 	}
@@ -142,7 +146,14 @@ func H_C07_quiet() {
 	role := zz.Param(0)
 	var f *fx
 	peer, me := "CLI", "SRV"
-	if role == 0 {
+	fxHugeHB = 0
+	if role == 0 && zz.Param(5) == 4 {
+		// logonVariant 4: the acceptor has no upper heartbeat limit and the peer asks for an interval
+		// that does not fit time.Duration: the timers cannot be created, the Logon is refused with a
+		// Reject (params[7]: which value) - and must leave the session not logged on
+		f = newAcceptor(st, 1, math.MaxInt64, 0, "0")
+		fxHugeHB = []int{9223372037, 8784163846}[zz.Param(7)%2]
+	} else if role == 0 {
 		f = newAcceptor(st, 20, 60, 0, "0")
 	} else {
 		f = newInitiator(st, 30, "0", "user", "pw", 0)
